@@ -5,6 +5,7 @@ import (
 	"encoding/json"
 	"fmt"
 	"reflect"
+	"runtime"
 	"strings"
 
 	"github.com/tormoder/fit"
@@ -254,6 +255,7 @@ func c03Check(ft byte, word []c03Sym, onState func(uint64)) ([]byte, string) {
 }
 
 func runC03(w *vx.W) {
+	c03Retention(w)
 	mixLen := 3
 	if !w.Quick() {
 		mixLen = 4
@@ -635,5 +637,52 @@ func runC03(w *vx.W) {
 			}
 		}
 		w.Extra("alphabet", map[string]int{"symbols": len(alpha), "known_messages_without_id_field": noid})
+	}
+}
+
+// ---- retention: what Decode returned stays what it was. A container (and the File) obtained from one decode is
+// dumped, the *File is dropped, the garbage collector runs, further files of the same kind are decoded, the
+// collector runs again - and the first container must still dump the same (storage recycled behind the caller's
+// back, finalizers, pooled backing arrays).
+func c03Retention(w *vx.W) {
+	if w.Shard != 0 {
+		return
+	}
+	type kept struct {
+		name string
+		c    interface{}
+		f    *fit.File
+		dump string
+	}
+	var ks []kept
+	streams := []namedStream{sBig, s4096, sAct3, sSet}
+	for round := 0; round < 3; round++ {
+		for _, s := range streams {
+			res := safeDecode(bytes.NewReader(s.B))
+			if res.Err != nil || res.File == nil {
+				continue
+			}
+			c := container(res.File)
+			k := kept{name: s.Name, c: c.Interface(), dump: fitmodel.Dump(c)}
+			if round == 1 {
+				k.f = res.File // some keep the File too
+			}
+			ks = append(ks, k)
+			res.File = nil
+			runtime.GC()
+			runtime.GC()
+		}
+	}
+	for i := 0; i < 3; i++ {
+		runtime.GC()
+		safeDecode(bytes.NewReader(sBig.B))
+	}
+	for i, k := range ks {
+		w.Eval(1)
+		w.Fam("retention", 1)
+		if got := fitmodel.Dump(reflect.ValueOf(k.c)); got != k.dump {
+			w.Violation("retention", fmt.Sprintf("the container of decode #%d (%s) changed after later decodes and garbage collections: %s", i, k.name, diffAt(got, k.dump)), c03Replay{})
+			break
+		}
 	}
 }
